@@ -411,6 +411,19 @@ func RunWorker(prop string, seed uint64, worker, cases int, scratch, out string)
 		cs := vk.Mix(seed, prop, fmt.Sprint(worker), fmt.Sprint(c))
 		e := &Engine{Prop: prop, Dir: filepath.Join(scratch, fmt.Sprintf("r%d", c)), R: vk.NewRand(cs), Res: res, Seed: cs, Case: worker*1000 + c, Journal: j}
 		fmt.Fprintf(j, "{\"case\":%d,\"seed\":%d,\"prop\":%q}\n", e.Case, cs, prop)
+		switch {
+		case prop == "C11" && worker < 2 && c == 0:
+			// two workers spend their first case on the real cleaner loop (60 s ticker)
+			rounds := 1
+			if cases > 50 {
+				rounds = 2
+			}
+			RunCleanerLoop(e, rounds, 60+worker, (os.Getpid()*11)%250)
+			res.Cases++
+			res.WriteFile(out)
+			j.Close()
+			continue
+		}
 		switch prop {
 		case "C12":
 			RunChainCase(e, p)
